@@ -42,7 +42,8 @@ def main():
          '`before` is the result of a first run of the quick tier. Every miss led to a change of the MODEL SPACE (scene options,',
          'boundary states, dtypes, sessions in one process), of an exclusion rule or of the harness protocol - never to a special case',
          'for the patch. After those changes the quick tier catches every change except C16-3 (needs about 128 environments x 1000',
-         'steps) and C16-r2-1 (float64 only, at a resting state after hundreds of steps; the quick tier of C06 catches it instead).', '',
+         'steps), C16-r2-1 (float64 only, at a resting state after hundreds of steps; the quick tier of C06 catches it instead) and',
+         'C10-r3-3 (a fusing change filed under C10: the quick tier of C13 catches it).', '',
          '| id | change | before | caught by / what it took |', '|----|--------|--------|--------------------------|']
   for _, name, m in rows:
     summ = re.sub(r'\s+', ' ', m['summary']).replace('|', '/')
